@@ -116,7 +116,7 @@ reg('C13', 'exploration',
     '1-3 right-hand sides, directly and through augmented_matrix; for '
     'n=4..6 structured families (row permutations of a diagonally dominant '
     'matrix, scaled permutation matrices, zero/tiny pivots in every '
-    'position, row scalings, 1x1 systems of any magnitude, singular '
+    'position, pivot-search traps (tiny entry in a later row), row scalings, 1x1 systems of any magnitude, singular '
     'members); every helper against its definition; everything through the '
     'Python source AND a transpiled+compiled build of the same helpers; all '
     '15 625 symmetric 3x3 integer matrices x 3 magnitudes for the '
